@@ -48,7 +48,12 @@ type c33Case struct {
 	RLimit     int     `json:"r_limit"`
 	CreateOver int     `json:"create_over"` // >0: first try Create with limit 9216+CreateOver
 	Members    int     `json:"members"`     // extra fake alive members (relay targets)
-	Ops        []c33Op `json:"ops"`
+	// Raise > 0: the node is created with UELimit, then the application raises
+	// Config.UserEventSizeLimit (the configuration is shared by pointer) to
+	// 9216+Raise.  Create's validation no longer protects the hard cap: the
+	// 9 KB limit itself has to hold in UserEvent.
+	Raise int     `json:"raise,omitempty"`
+	Ops   []c33Op `json:"ops"`
 }
 
 var c33Breakpoints = []int{31, 32, 255, 256, 65535, 65536}
@@ -64,12 +69,21 @@ func genC33(t *rapid.T) c33Case {
 		c.CreateOver = rapid.IntRange(1, 5000).Draw(t, "create_over")
 	}
 	c.Members = rapid.IntRange(0, 4).Draw(t, "members")
+	if rapid.IntRange(0, 5).Draw(t, "raise?") == 0 {
+		c.Raise = rapid.SampledFrom([]int{1, 2, 3, 100, 5000, 60000}).Draw(t, "raise")
+	}
 	n := rapid.IntRange(1, 8).Draw(t, "nops")
 	for i := 0; i < n; i++ {
 		op := c33Op{Kind: rapid.SampledFrom([]int{0, 0, 0, 1, 1, 2, 2}).Draw(t, "kind")}
+		if c.Raise > 0 && i < 3 {
+			op.Kind = 0
+		}
 		switch op.Kind {
 		case 0:
 			op.Mode = rapid.SampledFrom([]int{0, 0, 1, 1, 1, 2, 3, 4}).Draw(t, "mode")
+			if c.Raise > 0 {
+				op.Mode = rapid.SampledFrom([]int{0, 1, 1, 2, 2, 2}).Draw(t, "mode-raised")
+			}
 		case 1:
 			op.Mode = rapid.SampledFrom([]int{1, 1, 1, 3, 4}).Draw(t, "mode")
 		case 2:
@@ -107,6 +121,28 @@ func splitRelay(buf []byte) (serf.VerifRelayHeader, []byte, error) {
 
 func near(a, b int) bool { d := a - b; return d >= -3 && d <= 3 }
 
+// c33PushPullEvents counts the events with this name and payload in the state
+// the node would hand to a peer in a push/pull exchange.
+func c33PushPullEvents(n *node.Node, name string, payload []byte) int {
+	buf := n.Delegate.LocalState(false)
+	var pp serf.VerifMessagePushPull
+	if len(buf) < 1 || buf[0] != serf.VerifMessagePushPullType || serf.VerifDecodeMessage(buf[1:], &pp) != nil {
+		return -1
+	}
+	k := 0
+	for _, slot := range pp.Events {
+		if slot == nil {
+			continue
+		}
+		for _, e := range slot.Events {
+			if e.Name == name && bytes.Equal(e.Payload, payload) {
+				k++
+			}
+		}
+	}
+	return k
+}
+
 func bodyC33(c c33Case, x *vkit.Ctx) {
 	nw := simnet.New(1)
 	const self = "c33-self"
@@ -135,7 +171,13 @@ func bodyC33(c c33Case, x *vkit.Ctx) {
 	for i := 0; i < c.Members; i++ {
 		n.EventsD.NotifyJoin(node.MLNode(fmt.Sprintf("peer%d", i), fmt.Sprintf("10.0.0.%d", i+1), 7946, nil, 5, 5))
 	}
-	ueLimit := min(c.UELimit, c33HardLimit)
+	cfgLimit := c.UELimit
+	if c.Raise > 0 {
+		cfgLimit = c33HardLimit + min(c.Raise, 1<<24)
+		n.Conf.UserEventSizeLimit = cfgLimit
+		x.Label("limit-raised-after-create")
+	}
+	ueLimit := min(cfgLimit, c33HardLimit)
 	nontrivial := false
 	barrier := 0
 
@@ -152,7 +194,7 @@ func bodyC33(c c33Case, x *vkit.Ctx) {
 			var total int
 			switch op.Mode {
 			case 0:
-				total = c.UELimit + op.Delta
+				total = cfgLimit + op.Delta
 			case 2:
 				total = c33HardLimit + op.Delta
 			case 3:
@@ -160,10 +202,10 @@ func bodyC33(c c33Case, x *vkit.Ctx) {
 			case 4:
 				total = op.Size
 			default: // 1: aim the encoded size at the limit
-				if nameLen > c.UELimit {
-					nameLen = c.UELimit
+				if nameLen > ueLimit {
+					nameLen = ueLimit
 				}
-				total = nameLen + fitLen(c.UELimit+op.Delta, func(p int) int { return encLen(nameLen, p) })
+				total = nameLen + fitLen(ueLimit+op.Delta, func(p int) int { return encLen(nameLen, p) })
 			}
 			if total < 0 {
 				total = 0
@@ -174,12 +216,16 @@ func bodyC33(c c33Case, x *vkit.Ctx) {
 			name := strings.Repeat("n", nameLen)
 			payload := fillBytes(total-nameLen, oi)
 			probe := encLen(nameLen, len(payload))
-			if near(total, c.UELimit) || near(probe, c.UELimit) || near(total, c33HardLimit) || near(probe, c33HardLimit) {
+			if total > 1<<21 {
+				total = 1 << 21
+			}
+			if near(total, cfgLimit) || near(probe, cfgLimit) || near(total, c33HardLimit) || near(probe, c33HardLimit) {
 				nontrivial = true
 				x.Label("ue-within-3-of-a-limit")
 			}
 
 			_, _, qBefore := n.Serf.VerifQueued()
+			ppBefore := c33PushPullEvents(n, name, payload)
 			err := n.Serf.UserEvent(name, payload, op.CC)
 			// barrier: a foreign event injected now arrives after anything the call delivered
 			bname := fmt.Sprintf("\x00bar%d", barrier)
@@ -207,12 +253,12 @@ func bodyC33(c c33Case, x *vkit.Ctx) {
 			if err == nil {
 				x.Label("ue-accepted")
 				if total > ueLimit {
-					x.Violationf("accepted-raw-over-limit", "op %d: UserEvent accepted name+payload=%d bytes, configured limit %d (hard %d)", oi, total, c.UELimit, c33HardLimit)
+					x.Violationf("accepted-raw-over-limit", "op %d: UserEvent accepted name+payload=%d bytes, configured limit %d (hard %d)", oi, total, cfgLimit, c33HardLimit)
 					return
 				}
 				for _, e := range fresh {
 					if len(e) > ueLimit {
-						x.Violationf("accepted-encoded-over-limit", "op %d: UserEvent (name+payload=%d) accepted and queued with %d encoded bytes, configured limit %d (hard %d)", oi, total, len(e), c.UELimit, c33HardLimit)
+						x.Violationf("accepted-encoded-over-limit", "op %d: UserEvent (name+payload=%d) accepted and queued with %d encoded bytes, configured limit %d (hard %d)", oi, total, len(e), cfgLimit, c33HardLimit)
 						return
 					}
 				}
@@ -224,6 +270,12 @@ func bodyC33(c c33Case, x *vkit.Ctx) {
 				}
 				if len(delivered) > 0 {
 					x.Violationf("rejected-but-delivered", "op %d: UserEvent returned %q but the event (%d bytes name+payload) was delivered locally", oi, err, total)
+					return
+				}
+				// the other way an event leaves a node: the recent-event buffer a
+				// push/pull state exchange hands to a peer
+				if ppAfter := c33PushPullEvents(n, name, payload); ppAfter > ppBefore {
+					x.Violationf("rejected-but-offered-in-push-pull", "op %d: UserEvent returned %q but the event (%d bytes name+payload) is in the state the node hands to a peer in a push/pull exchange", oi, err, total)
 					return
 				}
 			}
